@@ -253,10 +253,12 @@ type Inst struct {
 	// the LAGGING subscriber (LagSubscriber): a second subscription with a large buffer that only keeps the trace VALUES
 	// and looks at them when the run is over — what a slow or buffered subscriber sees. traceLines: the prompt recorder's
 	// renderings of the traces alone (no driver actions, no notes), in order.
-	lagSub     chan tracing.ITrace
-	lagged     []tracing.ITrace
-	lagDone    chan struct{}
-	traceLines []string
+	lagSub      chan tracing.ITrace
+	lagged      []tracing.ITrace
+	lagDone     chan struct{}
+	traceLines  []string
+	evs         map[string]event.IEvent
+	reuseEvents bool
 }
 
 // LagSubscriber: instances created while it is set carry a lagging subscriber (see Inst.LagDiff)
@@ -762,14 +764,32 @@ func WorkerError() error {
 
 // Deliver hands an event to the instance under a deadline.
 func (in *Inst) Deliver(kind, name string, d time.Duration) bool {
-	var ev event.IEvent
-	if kind == "message" {
-		ev = event.NewMessageEvent(name, nil)
-	} else {
-		ev = event.NewSignalEvent(name)
-	}
-	return in.DeliverEvent(ev, kind, name, d)
+	return in.DeliverEvent(in.EventValue(kind, name), kind, name, d)
 }
+
+// EventValue: the event value to hand in. Every second instance is handed THE SAME value again and again (one object per
+// kind and name, as an application that keeps its events in variables does); the others get a fresh value per delivery.
+func (in *Inst) EventValue(kind, name string) event.IEvent {
+	in.mu.Lock()
+	defer in.mu.Unlock()
+	if in.evs == nil {
+		in.evs = map[string]event.IEvent{}
+		// (decided by how many traces the instance has sent when it gets its first event: the same on every replay)
+		in.reuseEvents = (int64(in.ntraces)+instNo.Add(1))%2 == 0
+	}
+	ev := in.evs[kind+" "+name]
+	if ev == nil || !in.reuseEvents {
+		if kind == "message" {
+			ev = event.NewMessageEvent(name, nil)
+		} else {
+			ev = event.NewSignalEvent(name)
+		}
+		in.evs[kind+" "+name] = ev
+	}
+	return ev
+}
+
+var instNo atomic.Int64
 
 // DeliverEvent hands an event VALUE of any kind to the instance under a deadline; it is recorded as `deliver <kind> <name>`.
 func (in *Inst) DeliverEvent(ev event.IEvent, kind, name string, d time.Duration) bool {
